@@ -216,6 +216,10 @@ def generated_mem_blocks(tier):
         out.append("DUP2 MLOAD SWAP1 DUP3 PUSH 1f ADD %s SWAP1 MLOAD" % st)
     for a, b in (("1", "1"), ("1", "2")):
         out.append("PUSH %s SLOAD SWAP1 PUSH %s SSTORE PUSH %s SLOAD" % (a, b, a))
+    # a load between two accesses is annihilated by a rule only after the store instructions have been generated (finding F39)
+    out += ["PUSH 1 PUSH 40 MSTORE DUP1 MLOAD PUSH 0 AND PUSH 2 PUSH 40 MSTORE", "PUSH 1 PUSH 40 MSTORE DUP1 MLOAD PUSH 0 AND PUSH 40 MLOAD",
+            "PUSH 1 PUSH 40 SSTORE DUP1 SLOAD PUSH 0 AND PUSH 2 PUSH 40 SSTORE", "DUP2 KECCAK256 DUP4 MSTORE DUP3 KECCAK256 SWAP2 MSTORE PUSH 0 AND MLOAD",
+            "PUSH 1 DUP3 MSTORE DUP1 MLOAD DUP1 SUB PUSH 2 DUP4 MSTORE", "PUSH 1 DUP3 SSTORE DUP1 SLOAD PUSH 0 MUL DUP3 SLOAD ADD"]
     # MSIZE observes every earlier memory access (finding F35)
     out += ["PUSH 80 MLOAD MSIZE", "MSIZE PUSH 80 MLOAD MSIZE", "PUSH 80 MLOAD POP MSIZE", "MSIZE DUP2 MLOAD", "PUSH 0 PUSH 0 MSTORE MSIZE",
             "MSIZE PUSH 0 PUSH 0 MSTORE", "MSIZE SWAP1 PUSH 200 MSTORE8 MSIZE"]
